@@ -2,44 +2,40 @@
    refinement theorem through the catalog encoding (sys_pages / sys_schema trees, tuple codec,
    sibling-chain scans, root moves recorded in the catalog / header).
 
-   C01_full_statement (Properties/C01.v) quantifies over ALL statement histories, including
-   histories with failing statements. It is FALSE for the code as it is: a multi-row INSERT /
-   UPDATE failing at row k > 1 and a CREATE TABLE failing at column k > 1 leave a prefix of
-   their effects behind (recorded findings F11a-c, Properties/C14.v); C01_full_refuted below
-   derives the contradiction from the F11a witness by vm_compute.
-
-   What IS proved, for all histories of any length over any number of tables, any row counts
-   and value sizes (hence any pattern of leaf / internal / root splits of user tables and of
-   both catalog trees): C01_refines_partial_early. Its hypotheses are boolean predicates on the
-   history:
+   STATUS after the repair of findings F11a-c (EvaluateInsert / EvaluateUpdate check every row,
+   createTable checks every catalog row, before the first change): C01_refines holds for ALL
+   statement histories - failing statements of any kind anywhere in the history - of any length
+   over any number of tables, any row counts and value sizes (hence any pattern of leaf /
+   internal / root splits of user tables and of both catalog trees). The former hypothesis
      (i)   early_failures: every FAILING statement of the history fails before its first page
-           change (Proofs/Atomic.v fails_early: unknown / duplicate table, catalog table as DML
-           target, column-count / type / range / size error in the FIRST row or first matching
-           row, SET from a column, unevaluable WHERE). Successful statements are unrestricted.
-           This is exactly the complement of findings F11a-c.
-     (ii)  (removed) column names of a CREATE TABLE need not be assumed pairwise distinct any
-           more: this hypothesis, forced by the proof (a tuple is a map by column name), was the
-           signal of a genuine defect - CREATE TABLE t (a int, a int); INSERT INTO t VALUES (1, 2)
-           succeeded and SELECT * returned (2, 2). /repo e322443 makes createTable refuse a name
-           used twice (model: st_create_table / names_distinct); such a statement now fails
-           before any change and is covered by (i);
+           change (Proofs/Atomic.v fails_early)
+   is no longer assumed: Proofs/FailsEarly.v derives it from the refinement invariant
+   (stmt_err_unchanged: under `Rep s d` a statement that returns an error returns the store it
+   was given; "no late failure": BTree.insert of a row that fits, updatePageTable on a registered
+   table, Update of a row whose check passed on the store the statement started from, and
+   MarkDeleted of a collected id cannot fail). The former refutation C01_full_refuted (F11a
+   witness) is gone - that history now satisfies the agreement (C01_former_witness_agrees).
+   The remaining hypotheses of C01_refines are boolean predicates on the history:
+     (ii)  (removed earlier) column names of a CREATE TABLE need not be assumed pairwise
+           distinct: /repo e322443 makes createTable refuse a name used twice;
      (iii) ev_ok: literals are Go values: integers within int64, strings shorter than 2^32
            bytes (the model's Z / string are unbounded; Go's int64 / len are not);
      (iv)  the data file stays below 2^63 bytes (offsets are stored as BIGINT);
    and the observed table name n is not sys_pages / sys_schema (the specification has no
-   catalog tables). No hypothesis on table / column name lengths or row sizes: an oversized
-   catalog or data row makes its statement fail, which is covered by (i). Statements that
-   target sys_pages / sys_schema need no exclusion (the code refuses them before any change).
+   catalog tables; C01_full_statement of Properties/C01.v has none of these three side
+   conditions and is therefore not the statement proved here). No hypothesis on table / column
+   name lengths or row sizes: an oversized catalog or data row makes its statement fail, and a
+   failing statement changes nothing. Statements that target sys_pages / sys_schema need no
+   exclusion (the code refuses them before any change).
 
-   Without (i), for ALL histories: C01_refines_partial_lax - the contents equal those of some
-   database the specification allows when each FAILED statement may leave a row-operation
-   prefix (TableSpec.stmt_prefixes) behind; this is exactly what findings F11a-c do.
-   C01_refines_partial_all_succeed is the property text's own quantifier (every statement of
-   the history succeeded). C01_refines_partial_rep exposes the invariant itself. *)
+   Still here, still true: C01_refines_partial_early / C01_refines_partial_rep (the same under
+   (i)), C01_refines_partial_all_succeed (the property text's own quantifier),
+   C01_refines_partial_lax (every failed statement may leave a row-operation prefix behind; now
+   subsumed by C01_refines, where it leaves nothing). *)
 From Coq Require Import List NArith ZArith String Sorted Bool Lia.
 From Mkdb Require Import Spec.HistObs Proofs.TreeProofs Proofs.StoreInv Proofs.TupleProofs
   Proofs.RefineForest Proofs.RefineCodec Proofs.RefineRep Proofs.RefineCat Proofs.RefineDML
-  Proofs.RefineDDL Proofs.Atomic Proofs.RefineMain Proofs.RefineFail Properties.C01.
+  Proofs.RefineDDL Proofs.Atomic Proofs.RefineMain Proofs.RefineFail Proofs.FailsEarly Properties.C01.
 Import ListNotations.
 Local Open Scope N_scope.
 Local Open Scope string_scope.
@@ -139,40 +135,74 @@ Proof.
 Qed.
 Print Assumptions C01_refines_partial_lax.
 
-(* ---------- the full statement is false for the code as it is (finding F11a) ---------- *)
+(* ---------- ALL histories, exact agreement: (H1) is derived, not assumed ---------- *)
+Theorem C01_refines : forall evs y os n,
+  stmts_only evs = true ->
+  run_events init_sys evs = (SOk y, os) ->
+  forallb ev_ok evs = true ->                      (* (iii) *)
+  N.leb (nextFree (mem y)) OFFMAX = true ->        (* (iv) *)
+  is_sys n = false ->
+  table_agrees (mem y) (spec_run [] (acked_stmts evs os)) n.
+Proof.
+  intros evs y os n Hso Hrun Hok Hmax Hsys. apply N.leb_le in Hmax.
+  destruct (run_events_rep_all evs init_sys [] y os Rep_init Hso Hok Hrun Hmax) as [HR _].
+  apply Rep_table_agrees; assumption.
+Qed.
+Print Assumptions C01_refines.
+
+Theorem C01_refines_rep : forall evs y os,
+  stmts_only evs = true -> run_events init_sys evs = (SOk y, os) ->
+  forallb ev_ok evs = true -> N.leb (nextFree (mem y)) OFFMAX = true ->
+  Rep (mem y) (spec_run [] (acked_stmts evs os)).
+Proof.
+  intros evs y os Hso Hrun Hok Hmax. apply N.leb_le in Hmax.
+  exact (proj1 (run_events_rep_all evs init_sys [] y os Rep_init Hso Hok Hrun Hmax)).
+Qed.
+Print Assumptions C01_refines_rep.
+
+(* the former F11a witness of C01_full_refuted: the 2-row INSERT whose second row is out of range
+   now leaves table t empty, as the specification says *)
 Definition evs_F11a : list event :=
   [EvStmt (SCreateTable "t" [mkColDef "a" STNumeric]);
    EvStmt (SInsert "t" [] [[VInt 1]; [VInt 2147483648]])].
 
-(* everything the refutation needs, decided by one vm_compute: the history runs without panic,
-   the model's table t holds a row, the specification's table t is empty *)
-Definition F11a_check : bool :=
+Example C01_former_witness_agrees :
   match run_events init_sys evs_F11a with
   | (SOk y, os) =>
-      forallb (fun o => match o with Some OPanic => false | _ => true end) os &&
-      match st_fetch (mem y) "t", spec_table (spec_run [] (acked_stmts evs_F11a os)) "t" with
-      | Ok (_ :: _, _), Some (_, []) => true
-      | _, _ => false
-      end
-  | _ => false
+      os = [Some (OOk 0); Some (OErr EIntRange)] /\
+      st_fetch (mem y) "t" = Ok ([], [mkFld "" "a"]) /\
+      spec_table (spec_run [] (acked_stmts evs_F11a os)) "t" = Some (["a"], [])
+  | _ => False
   end.
+Proof. vm_compute. repeat split; reflexivity. Qed.
 
-Lemma F11a_check_true : F11a_check = true.
-Proof. vm_compute. reflexivity. Qed.
+(* non-vacuity of C01_refines: a history with a FAILING multi-row INSERT (second row out of INT
+   range), a failing multi-row UPDATE (the second matching row would exceed 400 bytes) and a
+   failing CREATE TABLE (second column VARCHAR(3000000000)) - none of which fails_early admits -
+   meets the hypotheses, and the tables read as if those statements had never been issued *)
+Fixpoint rep_x (n : nat) : string := match n with O => "" | S k => String "x" (rep_x k) end.
 
-Theorem C01_full_refuted : ~ C01_full_statement.
-Proof.
-  intros H. pose proof F11a_check_true as Hc. unfold F11a_check in Hc.
-  destruct (run_events init_sys evs_F11a) as [[y| |] os] eqn:E; try discriminate Hc.
-  apply andb_true_iff in Hc as [Hnp Hc].
-  assert (Hnp' : forall o, In (Some o) os -> o <> OPanic).
-  { intros o Ho. rewrite forallb_forall in Hnp. specialize (Hnp _ Ho). intros ->. discriminate Hnp. }
-  pose proof (H evs_F11a y os "t" eq_refl E Hnp') as Ht. unfold table_agrees in Ht.
-  destruct (st_fetch (mem y) "t") as [[[|r1 idrows] fs]|e|]; try discriminate Hc.
-  destruct (spec_table (spec_run [] (acked_stmts evs_F11a os)) "t") as [[cols [|r rows]]|]; try discriminate Hc.
-  destruct Ht as (_ & X & _). discriminate X.
-Qed.
-Print Assumptions C01_full_refuted.
+Definition evs_late : list event :=
+  [EvStmt (SCreateTable "t" [mkColDef "a" STNumeric; mkColDef "b" (STVarchar 400); mkColDef "c" (STVarchar 400)]);
+   EvStmt (SInsert "t" [] [[VInt 1; VStr "x"; VStr "y"]; [VInt 2; VStr "x"; VStr (rep_x 300)]]);
+   EvStmt (SInsert "t" [] [[VInt 3; VStr "p"; VStr "q"]; [VInt 2147483648; VStr "p"; VStr "q"]]);   (* row 2: INT range *)
+   EvStmt (SUpdate "t" [("b", XLit (VStr (rep_x 200)))] None);                                        (* row 2: too large *)
+   EvStmt (SCreateTable "u" [mkColDef "a" STNumeric; mkColDef "b" (STVarchar 3000000000)]);          (* column 2 *)
+   EvStmt (SInsert "u" [] [[VInt 1; VStr "z"]])].                                                     (* u does not exist *)
+
+Example C01_refines_nonvacuous :
+  stmts_only evs_late = true /\ forallb ev_ok evs_late = true /\ early_failures init_sys evs_late = false /\
+  match run_events init_sys evs_late with
+  | (SOk y, os) =>
+      N.leb (nextFree (mem y)) OFFMAX = true /\
+      os = [Some (OOk 0); Some (OOk 2); Some (OErr EIntRange); Some (OErr ERowTooLarge); Some (OErr EIntRange);
+            Some (OErr ETableNotExist)] /\
+      (match obs_table (mem y) "t" with TRows cols rows => (cols, map fst rows) | _ => ([], []) end) =
+        (["a"; "b"; "c"], [13; 14]%N) /\
+      st_fetch (mem y) "u" = Err ETableNotExist
+  | _ => False
+  end.
+Proof. vm_compute. repeat split; reflexivity. Qed.
 
 (* ---------- non-vacuity: a history with DDL, multi-row DML with column lists, UPDATE, DELETE and
    early failures of several kinds meets every hypothesis ---------- *)
